@@ -195,12 +195,34 @@ def r06c(model, ctx):
     ctx.check(not bad, R, "emit_io:callers", f"callers: {sorted({q for q, _ in users})}",
               f"emit_io() results must reach cells only through emit_io_use() (the single-use check); direct callers: {bad}",
               f"{IR}:{users[0][1] if users else 0}")
+    # emit_io_use: per I/O bit, check-then-record (path summaries of the loop body with NetlistEmitter's helpers expanded):
+    # a bit already in ionet_src_loc raises DriverConflict, a new one is recorded; nothing is recorded on the raising path
+    from ..engine import refsem
     fi = model.func(f"{IR}::NetlistEmitter.emit_io_use")
-    g = CFG(fi, inline_closures=False)
-    rz = [nid for nid in g.nodes() if isinstance(g.stmt[nid], ast.Raise) and "DriverConflict" in unparse(g.stmt[nid])]
-    tests = [nid for nid in g.nodes() if isinstance(g.stmt[nid], ast.If) and "net not in self.ionet_src_loc" in unparse(g.stmt[nid].test)]
-    ok = len(rz) == 1 and len(tests) == 1 and any(isinstance(s, ast.Assign) and unparse(s.targets[0]) == "self.ionet_src_loc[net]"
-                                                   for s in g.stmt[tests[0]].body)
+    loops = [x for x in fi.body if isinstance(x, ast.For)]
+    need(len(loops) == 1 and isinstance(loops[0].target, ast.Name), "emit_io_use: per-net loop not found")
+    v = loops[0].target.id
+    table = refsem.inline_table(model, IR, "NetlistEmitter", exclude=("emit_io_use", "emit_io"))
+    lp = run_paths(list(loops[0].body), inline=table, depth=3)
+    need(lp, "emit_io_use: loop body has no path")
+    ok = True
+    n_raise = n_store = 0
+    for p in lp:
+        member = None
+        for t, pol in p.conds:
+            tx = unparse(t)
+            if tx == f"{v} in self.ionet_src_loc":
+                member = pol
+            elif tx == f"{v} not in self.ionet_src_loc":
+                member = not pol
+        stores = [e for e in p.effects if isinstance(e, ast.Assign) and any(unparse(t_) == f"self.ionet_src_loc[{v}]" for t_ in e.targets)]
+        if p.how == "raise":
+            n_raise += 1
+            ok = ok and member is True and not stores and p.ret is not None and "DriverConflict" in unparse(p.ret)
+        else:
+            n_store += 1
+            ok = ok and member is False and len(stores) == 1 and unparse(stores[0].value) == "src_loc"
+    ok = ok and n_raise >= 1 and n_store >= 1
     ctx.check(ok, R, "NetlistEmitter.emit_io_use", "second use of an I/O bit raises DriverConflict",
               "emit_io_use() must record each I/O bit on first use and raise DriverConflict on a second use", f"{IR}:{fi.lineno}")
     # the fragment kinds that consume I/O go through emit_io_use
